@@ -352,10 +352,12 @@ RAW_EXTRA = ("(a)x", "(a)x.y", "[(a)]", "a[(b)]", "[(a)b]", "[a='b(c)']", "[a=[b
 # climb and create: a segment that is still iterating a hash / set / list yields a child, the path climbs back with
 # parent() and then names something missing -- the optional-match query creates it IN the collection being iterated
 CLIMB_DOCS = ("{a: {x: 1}, b: {x: 2}}\n", "!!set {a, b}\n", "{k: {a: {x: 1}, b: {x: 2}}, z: 1}\n", "[[1], [2]]\n", "{a: [1, 2], b: [3]}\n",
-              "{a: &n {x: 1}, b: {x: 2}}\n", "!!set {&n a, b}\n")
+              "{a: &n {x: 1}, b: {x: 2}}\n", "!!set {&n a, b}\n",
+              "[{x: 1}, {x: 2}]\n", "[&n {x: 1}, true]\n", "{k: [{x: 1}, {x: 2}], z: 1}\n")
 CLIMB_HEADS = ("*", "[.^a]", "[.!^z]", "[a:b]", "a*", "**", "*.x", "**.x", "*[x=1]", "*[name()]", "[has_child(x)]", "[!has_child(q)]",
                "[max(x)]", "[!min(x)]", "&n", "k.*", "k[.!=q]", "k.**", "*[0]", "[.=~/./]", "(*)", "(a)+(b)", "*.*", "k.*.x")
-CLIMB_TAILS = ("[parent()].c", "[parent(2)].c", "[parent()].c.d", "[parent()][5]", "[parent(2)][3]", "[parent()].a.q", "[parent(3)].c")
+CLIMB_TAILS = ("[parent()].c", "[parent(2)].c", "[parent()].c.d", "[parent()][5]", "[parent(2)][3]", "[parent()].a.q", "[parent(3)].c",
+               "[parent()][&zz]", "[parent(2)][&zz]")      # (a missing anchored member of a list is created by appending to it)
 
 
 def climb_paths():
@@ -385,14 +387,16 @@ def _work_raw(ranges, seed):
         if lo < 0:
             for text in climb_paths():
                 for dtext in CLIMB_DOCS:
+                  for dflt in ("D", None):                          # (what is created: a text, or the default null)
                     proc = Processor(log, gen.load(dtext))          # the query may create nodes: a fresh document each time
-                    r = call_real(lambda: len(list(proc.get_nodes(text, mustexist=False, default_value="D"))))
+                    kw = {} if dflt is None else {"default_value": dflt}
+                    r = call_real(lambda: len(list(proc.get_nodes(text, mustexist=False, **kw))))
                     if r[0] == "crash":
                         col.witness(_crash_key(r), "get_nodes(mustexist=False) let %s escape (from %s: %s): the path climbs back into a "
                                     "collection that is being iterated and creates a member there" % (r[1], r[2], r[3]),
                                     {"doc": dtext, "path": text, "call": "get_nodes(mustexist=False)", "raw": True, "climb": True},
                                     observed=[r[1], r[2], r[3]], expected="returns, or raises a YAMLPathException")
-                    col.case(("climb", text.split("[parent")[0], text[text.index("[parent"):], dtext[:6], r[0] if r[0] != "ok" else "ok%d" % min(r[1], 2)))
+                    col.case(("climb", text.split("[parent")[0], text[text.index("[parent"):], dtext[:6], dflt, r[0] if r[0] != "ok" else "ok%d" % min(r[1], 2)))
         texts = RAW_EXTRA if lo < 0 else _raw_strings(lo, hi, len(RAW_ALPHA))
         for text in texts:
             try:
@@ -507,7 +511,7 @@ def run(tier="quick", seed=0, jobs=None):
                           "those the parser accepts are evaluated with get_nodes(mustexist=True) on %d fixed documents"
                           % (L, na, RAW_ALPHA, total, len(RAW_EXTRA), len(RAW_DOCS)))
     bounds["climb_and_create"] = ("%d paths = %d iterating heads x %d tails that climb back with parent() and name a missing key / index, evaluated "
-                                  "with get_nodes(mustexist=False) on fresh copies of %d documents (hash, set, nested hash, list of lists, hash of lists, hash / set with an anchored member)"
+                                  "with get_nodes(mustexist=False) on fresh copies of %d documents (hash, set, nested hash, list of lists, hash of lists, list of hashes, hash / set / list with an anchored member)"
                                   % (len(climb_paths()), len(CLIMB_HEADS), len(CLIMB_TAILS), len(CLIMB_DOCS)))
     bounds.update({"seed": seed, "vocabulary": len(VOCAB), "collector_paths": len(COLLS),
                    "documents": {k: len(v) for k, v in DOCSETS.items()},
